@@ -14,6 +14,7 @@ pub mod c14;
 pub mod c21;
 pub mod c23;
 pub mod c24;
+pub mod c26;
 pub mod c27;
 pub mod c28;
 pub mod c30;
@@ -42,6 +43,7 @@ pub fn registry() -> &'static [Check] {
         Check { meta: &c23::META, run: c23::run, shards: (16, 16) },
         Check { meta: &c24::META24, run: c24::run24, shards: (16, 16) },
         Check { meta: &c24::META25, run: c24::run25, shards: (16, 16) },
+        Check { meta: &c26::META, run: c26::run, shards: (8, 16) },
         Check { meta: &c27::META27, run: c27::run27, shards: (8, 16) },
         Check { meta: &c27::META29, run: c27::run29, shards: (8, 16) },
         Check { meta: &c28::META, run: c28::run, shards: (8, 16) },
